@@ -8,7 +8,7 @@
 
 #ifdef VF_THOROUGH
 #define MAXN 4
-#define MAXR 3
+#define MAXR 2
 #define MAXU 5
 #else
 #define MAXN 3
@@ -85,8 +85,13 @@ extern "C" void c31_rfc1738_roundtrip(void)
     const int flags = flagSets[vf_concretize(vf_range(0, 3, "flags"))];
     // call twice so that the static buffer reuse path is covered as well
     // (previous string: "", one character that is copied, one that grows to %XX)
+#ifdef VF_THOROUGH
+    const unsigned m = (unsigned)vf_concretize(vf_range(0, 1, "prelen"));
+    char pre[2] = {0, 0}; if (m) { pre[0] = (char)vf_nondet_u8("prebyte"); vf_assume(pre[0] != 0); }
+#else
     const unsigned m = (unsigned)vf_concretize(vf_range(0, 2, "pre"));
     char pre[2] = {0, 0}; if (m) pre[0] = m == 1 ? 'a' : '%';
+#endif
     (void)rfc1738_do_escape(pre, flags);
     char *e = rfc1738_do_escape(in, flags);
     const size_t el = strlen(e);
